@@ -36,13 +36,18 @@ def conditions(tier):
                 name='type_spelling[%s,%s]' % (posname[pos], 'T' + '*' * depth),
                 bounds='%d C spellings (every C/stdint/GLib basic spelling the scanner knows) x const/volatile on '
                        'the pointee x const/volatile on the outer pointer, pointer depth %d' % (H.N_SPELL, depth)))
-    cks = (0, 1, 2, 3)
-    for ck in cks:
-        conds.append(ch.Cond(
-            'h_c02', 'roles', [('n', 'int'), ('k0', 'int'), ('k1', 'int'), ('k2', 'int')],
-            pre=['0 <= n <= 3', '0 <= k0 <= 7', '0 <= k1 <= 7', '0 <= k2 <= 7'],
-            fixed=dict(ckind=ck, k3=0), timeout=T, name='roles[%s,<=3 parameters]' % pipe.CALLABLE_KINDS[ck],
-            bounds='every arrangement of <=3 parameters over {%s}' % ', '.join(H.ROLE_KINDS)))
+    for ck in (0, 1, 2, 3):
+        for ptr in (0, 1, 2):
+            if quick and ptr and ck in (1, 3):
+                continue
+            conds.append(ch.Cond(
+                'h_c02', 'roles', [('n', 'int'), ('k0', 'int'), ('k1', 'int'), ('k2', 'int')],
+                pre=['0 <= n <= 3', '0 <= k0 <= 7', '0 <= k1 <= 7', '0 <= k2 <= 7'],
+                fixed=dict(ckind=ck, k3=0, ptr=ptr), timeout=T,
+                name='roles[%s,<=3 parameters,%s]' % (pipe.CALLABLE_KINDS[ck], H.PTR_SPELLINGS[ptr]),
+                bounds='every arrangement of <=3 parameters over {%s}; untyped pointers spelled %s%s'
+                       % (', '.join(H.ROLE_KINDS), H.PTR_SPELLINGS[ptr],
+                          ' (same roles as with gpointer)' if ptr else '')))
     for ck in ((0, 2) if quick else (0, 1, 2, 3)):
         for k0 in range(8):
             conds.append(ch.Cond(
@@ -51,6 +56,11 @@ def conditions(tier):
                 fixed=dict(ckind=ck, n=4, k0=k0), timeout=T,
                 name='roles[%s,4 parameters,first=%s]' % (pipe.CALLABLE_KINDS[ck], H.ROLE_KINDS[k0]),
                 bounds='every arrangement of 4 parameters over {%s}' % ', '.join(H.ROLE_KINDS)))
+    conds.append(ch.Cond('h_c02', 'typedef_return', [('sidx', 'int'), ('depth', 'int'), ('qbase', 'int')],
+                         pre=['0 <= sidx < %d' % H.N_SPELL, '0 <= depth <= 1', '0 <= qbase <= 1'], timeout=T,
+                         name='typedef_return',
+                         bounds='return type is a typedef of [const] T[*] for every spelling T: default transfer looks through '
+                                'the alias (basic: none, const string: none, string: full)'))
     for ck in (0, 1, 2, 3):
         conds.append(ch.Cond(
             'h_c02', 'direction_defaults', [('tkind', 'int'), ('direction', 'int')],
